@@ -21,6 +21,11 @@ define_language! {
         K3(AppliedId, AppliedId, AppliedId) = "k",
         W(Slot, AppliedId) = "w",
         Case(AppliedId, Bind<AppliedId>, Bind<AppliedId>) = "case",
+        // payloads (u32 only: no Symbol, the interner stays out of these properties): an operator with a payload of its
+        // own next to a child, written (s 2 <child>), and a payload leaf, written 1.  Harness terms name them by value:
+        // s2 s3 n1 n2 (to the oracle, different payloads are different operators)
+        Sc(u32, AppliedId) = "s",
+        Num(u32),
     }
 }
 
@@ -41,6 +46,10 @@ pub const SYM_SIG: Sig = &[
     ("k", "ccc"),
     ("w", "sc"),
     ("case", "cbb"),
+    ("s2", "c"),
+    ("s3", "c"),
+    ("n1", ""),
+    ("n2", ""),
 ];
 
 /// how harness names become slots
@@ -166,6 +175,10 @@ pub fn mk_node(t: &T, nm: Naming, kids: &mut dyn FnMut() -> AppliedId) -> Sym {
             let r = kids();
             Sym::Case(sc, Bind { slot: s(xs[0]), elem: l }, Bind { slot: s(ys[0]), elem: r })
         }
+        "s2" => Sym::Sc(2, kids()),
+        "s3" => Sym::Sc(3, kids()),
+        "n1" => Sym::Num(1),
+        "n2" => Sym::Num(2),
         o => panic!("unknown op {o}"),
     }
 }
